@@ -70,12 +70,12 @@ def p_keys(s):
 
 
 def norm_key(p):
-    """python twin of crate::output::path::path_key for relative paths (fix D08): backslash -> slash,
-    every leading ./ stripped, '' and '.' spelled '.' (idempotent)"""
-    p = p.replace("\\", "/")
-    while p.startswith("./"):
-        p = p[2:]
-    return "." if p in ("", ".") else p
+    """python twin of crate::output::path::path_key for paths not below the cwd (fixes D08, D39): backslash ->
+    slash, rebuilt from its components without '' and '.' (the root marker of an absolute path and '..' stay),
+    the empty result spelled '.' (idempotent)"""
+    u = p.replace("\\", "/")
+    k = ("/" if u.startswith("/") else "") + "/".join(c for c in u.split("/") if c not in ("", "."))
+    return k or "."
 
 
 def view(b):
@@ -175,7 +175,8 @@ class HashDir:
 # ------------------------------------------------------------------ library-level generators
 
 PATH_POOL = ["a.rs", "./a.rs", ".\\a.rs", "src/b.rs", "src\\b.rs", "./src/b.rs", ".\\src\\b.rs", "d", "./d", ".", "./", "./.", "d/e.rs", "h1.rs",
-             "./h1.rs", "././h1.rs", ".\\.\\a.rs", "sub/h2.rs", "./sub/h2.rs", "sub\\h2.rs", "", "été.rs", "a.rs/", "x y.rs", "d\\e.rs", "\U0001f600.rs", "nope/none.rs", "..", "../x.rs", ".a.rs"]
+             "./h1.rs", "././h1.rs", ".\\.\\a.rs", "sub/h2.rs", "./sub/h2.rs", "sub\\h2.rs", "", "été.rs", "a.rs/", "x y.rs", "d\\e.rs", "\U0001f600.rs", "nope/none.rs", "..", "../x.rs", ".a.rs",
+             "src//b.rs", "./x/./y.rs", "x\\.\\y.rs", "x/y.rs", "/", "d/", "d/.", "sub//h2.rs", "sub/./h2.rs"]
 assert all(stable_path(p) for p in PATH_POOL)
 KINDS = ["n"] * 6 + ["c"] * 3 + ["nS"] + ["sF"] * 4 + ["sD"] * 3 + ["sM"] * 2 + ["sP0", "sP1", "sP2", "sP3", "sP4", "sP5", "sP6"]
 STATUSES = ["F"] * 9 + ["G"] * 3 + ["W"] * 3 + ["P"] * 5
@@ -346,10 +347,8 @@ def expected_results(state, depth0=False):
 
 
 def canon(p):
-    """project-relative canonical spelling (the universe only uses ./x and x)"""
-    while p.startswith("./"):
-        p = p[2:]
-    return p
+    """project-relative canonical spelling: the baseline key"""
+    return norm_key(p)
 
 
 def rkey(r):
@@ -670,7 +669,16 @@ def rand_files(rng, state):
     allf = UFILES + ["./ghost.rs"]
     k = rng.randint(1, 4)
     # either spelling of a listed file (fix D08: same baseline key)
-    return [f if rng.random() < 0.6 else f[2:] for f in (rng.choice(allf) for _ in range(k))]
+    def spell(f):
+        r = rng.random()
+        if r < 0.5:
+            return f
+        if r < 0.75:
+            return f[2:]
+        if r < 0.9:
+            return f[2:].replace("/", "//") if "/" in f[2:] else "./" + f
+        return "./" + f[2:].replace("/", "/./")
+    return [spell(rng.choice(allf)) for _ in range(k)]
 
 
 def rand_history(rng, maxlen=10):
